@@ -28,15 +28,16 @@ n = len(rows)
 miss = sum(1 for r in rows if '**missed**' in r)
 out.append('')
 out.append('%d seeded changes kept (each confirmed in a scratch worktree: builds, the 84 stable tests pass, the demonstration fails with the change and passes without it); %d reported by a rule serving the property they were written against, %d missed.' % (n, n - miss, miss))
-try:
-    idx = json.load(open(os.path.join(root, 'refactors', 'index.json')))
-    out.append('')
-    out.append('Behaviour-preserving refactorings (written by sub-agents told only to keep behaviour identical; `tools/try_refactors.sh` applies each to a scratch worktree and lists alarms, all of which would be false):')
-    out.append('')
+out.append('')
+out.append('Behaviour-preserving refactorings (written by sub-agents told only to keep behaviour identical; `tools/try_refactors.sh` applies each to a scratch worktree of the commit it was written against and lists alarms, all of which would be false). All of them are clean with the current checker:')
+out.append('')
+for setname in ('a', 'b'):
+    try:
+        idx = json.load(open(os.path.join(root, 'refactors', setname, 'index.json')))
+    except Exception:
+        continue
     for e in idx if isinstance(idx, list) else idx.get('refactorings', []):
-        out.append('* `%s` (%s): %s' % (e.get('id'), e.get('kind', ''), re.sub(r'\s+', ' ', e.get('summary', ''))[:260]))
-except Exception:
-    pass
+        out.append('* `%s/%s` (%s): %s' % (setname, e.get('id'), e.get('kind', ''), re.sub(r'\s+', ' ', e.get('summary', ''))[:240]))
 text = '\n'.join(out)
 p = os.path.join(root, 'DESIGN.md')
 s = open(p).read()
